@@ -50,7 +50,16 @@ func TestC18Backend(t *testing.T) {
 			be := newCaseBackend(c, kind, cfg)
 			d := newMapDriver(c, be, cfgTTL, -1)
 			d.evictable = evict
-			backendOps(c, d, baseKeys, c.Int("nops", 5, 60))
+			keys := baseKeys
+
+			// now and then the alphabet holds keys with equal 64-bit hashes: a read that finds the slot of
+			// its hash taken by another key is a read like any other (counted as a miss)
+			if !evict && c.Weighted("colliding-keys", 3, 1) == 1 {
+				keys, d.family = drawCollisionFamilies(c)
+				c.Class("keys-with-equal-hashes")
+			}
+
+			backendOps(c, d, keys, c.Int("nops", 5, 60))
 
 			if c.classes["expireall-over-never-expiring"] || c.classes["deleteall"] || c.classes["delete-missing"] || c.classes["skipread"] {
 				c.NonTrivial()
